@@ -237,6 +237,15 @@ def c11_on_calls(cs, calls):
         Hm = dense_hess_psi(p, x, cs.y0, cs.S0)
         if not all(math.isfinite(t) and abs(t) < 1e12 for r in Hm for t in r):
             continue
+        # C11's oracle recomputes r_J = -p_J/γ + hvf (H p_K)_J from the dense Hessian; when that sum cancels (inactive part of the step
+        # at rounding level next to an O(1) active part) the recomputed r_J is rounding noise: not a usable reference
+        pv = V(c, "p"); Jc = c["J"]
+        pK = [pv[i] if i not in Jc else 0.0 for i in range(len(pv))]
+        HpK = [sum(Hm[a][b] * pK[b] for b in range(len(pv))) for a in range(len(pv))]
+        rJ = [-pv[j] / γ + cs.D_("hvf") * HpK[j] for j in Jc]
+        terms = sl.norm2([pv[j] / γ for j in Jc]) + abs(cs.D_("hvf")) * math.sqrt(sum(t * t for r in Hm for t in r)) * sl.norm2(pK)
+        if Jc and sl.norm2(rJ) < 1e-6 * terms:
+            continue
         cc = dict(op="ntr", x=x, γ=γ, H=Hm, hvf=cs.D_("hvf"), Δ=D(c, "Delta"), ts=cs.A_("tol_scale"), tsr=cs.A_("tol_scale_root"),
                   tm=cs.A_("tol_max"), mif=cs.A_("max_iter_factor"), kind="run")
         oo = dict(p=c["p"], q=c["q"], val=c["val"], J=c["J"], calls=c["evals"])
